@@ -204,7 +204,8 @@ Fixpoint write_be_loop (fuel : nat) (cf : cfg) (chs : list change) (p : rproxy) 
     | None => (p, acc)
     | Some n =>
       if rp_hs p + 1 <? n then
-        write_be_loop f cf chs (set_hs p n) (acc ++ [toR [SGap (rp_hs p + 1) n]])
+        (* only the hole is marked as sent: the change n itself is sent by the next iteration *)
+        write_be_loop f cf chs (set_hs p (n - 1)) (acc ++ [toR [SGap (rp_hs p + 1) n]])
       else
         match lookup_relevant p n chs with
         | Some c =>
@@ -218,7 +219,7 @@ Fixpoint write_be_loop (fuel : nat) (cf : cfg) (chs : list change) (p : rproxy) 
 
 (* RtpsReaderProxy::write_message *)
 Definition write_message (cf : cfg) (now : Z) (chs : list change) (p : rproxy) : rproxy * list dgram :=
-  if rp_rel p then write_rel cf now chs p else write_be_loop (S (length chs)) cf chs p [].
+  if rp_rel p then write_rel cf now chs p else write_be_loop (S (2 * length chs)) cf chs p [].
 
 (* requested_changes_set *)
 Fixpoint req_add (req : list Z) (set : list Z) : list Z :=
